@@ -52,7 +52,7 @@ for p in $MUST_BREAK; do
   grep "NOT DISPOSED\|UNCLASSIFIED\|NOT PINNED\|OUTSIDE ITS PINNED\|PACKAGE-LEVEL\|NOT CONFINED" $T/State.notes.txt | sort -u | head -3 | cut -c1-260
 done
 quiet=0; alarms=0
-for d in /verif/seeded/benign/*/; do
+for d in $([ -z "${SKIP_BENIGN:-}" ] && ls -d /verif/seeded/benign/*/); do   # SKIP_BENIGN=1: must-break, variants and commits only
   r=$(evalpatch $d/patch.diff)
   if same "$r" && [[ "$r" != APPLY-FAILED* ]]; then quiet=$((quiet+1)); else alarms=$((alarms+1)); echo "benign $(basename $d): ALARM  $r"; fail=1; fi
 done
